@@ -19,14 +19,37 @@ import (
 // not asserted absolutely, only that All() and Lookup agree on it and that
 // it survives the file round trip.  Values are asserted absolutely for ranges
 // which differ in the last byte only, and for single entries.
+//
+// Malformed ranges (some byte of First greater than the same byte of Last:
+// "non-rectangular" if First <= Last as byte strings, "reversed" otherwise)
+// are part of the raw cases too.  Which codes such a range maps is the
+// library's convention and is not asserted.  What is asserted is the last
+// sentence of the property: over the bounding box of the range (every code
+// with each byte between the two bounds, in either order) enumeration and
+// lookup agree code by code -- an enumerated code looks up to the enumerated
+// value, and a code which looks up as mapped is enumerated -- on the built
+// file and again after Embed/Extract.  The PostScript reader rejects
+// reversed ranges; a failing Extract is therefore not judged for them.
 
 const maxRawCodes = 8000
 
 type rawModel struct {
-	codes    map[string]bool   // valid codes covered by an entry
+	codes    map[string]bool   // valid codes covered by a well-formed entry
+	free     map[string]bool   // valid codes in the bounding box of a malformed range
+	nonRect  bool              // a malformed range with First <= Last as byte strings
+	reversed bool              // a malformed range with First > Last as byte strings
 	absCID   map[string]uint32 // value known absolutely
 	absText  map[string]string
 	expected int // number of pairs All() must yield
+}
+
+// boundingBox is the smallest rectangle which contains both bounds.
+func boundingBox(first, last []byte) cmapmodel.Range {
+	box := cmapmodel.Range{Low: make([]byte, len(first)), High: make([]byte, len(first))}
+	for i := range first {
+		box.Low[i], box.High[i] = min(first[i], last[i]), max(first[i], last[i])
+	}
+	return box
 }
 
 func lastByteOnly(first, last []byte) bool {
@@ -42,13 +65,32 @@ func buildRawModel(c *Case, text bool) (*rawModel, error) {
 	if !space.Valid() || len(space) == 0 {
 		return nil, fmt.Errorf("generator error: invalid code space")
 	}
-	m := &rawModel{codes: map[string]bool{}, absCID: map[string]uint32{}, absText: map[string]string{}}
+	m := &rawModel{codes: map[string]bool{}, free: map[string]bool{}, absCID: map[string]uint32{}, absText: map[string]string{}}
 	total := uint64(0)
 	var rects []cmapmodel.Range
 	for _, r := range c.Raw {
 		rect := cmapmodel.Range{Low: r.First, High: r.Last}
-		if !rect.WellFormed() {
+		if len(r.First) != len(r.Last) || len(r.First) == 0 || len(r.First) > 4 {
 			return nil, fmt.Errorf("generator error: raw range %v", rect)
+		}
+		malformed := !rect.WellFormed()
+		if malformed {
+			if bytes.Compare(r.First, r.Last) <= 0 {
+				m.nonRect = true
+			} else {
+				m.reversed = true
+			}
+			if text {
+				if len(r.Texts) == 0 {
+					return nil, fmt.Errorf("generator error: malformed range without values")
+				}
+				for _, t := range r.Texts {
+					if !t.valid() {
+						return nil, fmt.Errorf("generator error: invalid text")
+					}
+				}
+			}
+			rect = boundingBox(r.First, r.Last)
 		}
 		for _, q := range rects {
 			if cmapmodel.Overlap(q, rect) {
@@ -60,6 +102,14 @@ func buildRawModel(c *Case, text bool) (*rawModel, error) {
 		total += n
 		if total > maxRawCodes {
 			return nil, fmt.Errorf("generator error: raw ranges too large")
+		}
+		if malformed {
+			for idx := uint64(0); idx < n; idx++ {
+				if code := rect.CodeAt(idx); space.IsCode(code) {
+					m.free[string(code)] = true
+				}
+			}
+			continue
 		}
 		if text {
 			if len(r.Texts) != 1 && uint64(len(r.Texts)) != n {
@@ -131,13 +181,64 @@ func buildRawModel(c *Case, text bool) (*rawModel, error) {
 	return m, nil
 }
 
+// checkCounts compares what All() yielded with the entries: outside the
+// bounding boxes of malformed ranges, exactly the codes the well-formed
+// entries cover, each once.
+func (m *rawModel) checkCounts(stage string, count int, keys []string) error {
+	outside := 0
+	for _, k := range keys {
+		switch {
+		case m.codes[k]:
+			outside++
+		case m.free[k]:
+		default:
+			return fmt.Errorf("%s: All() yields <%x>, which no entry covers", stage, k)
+		}
+	}
+	if outside != m.expected {
+		return fmt.Errorf("%s: All() yields %d of the %d codes which the well-formed entries cover", stage, outside, m.expected)
+	}
+	if len(m.free) == 0 && count != len(keys) {
+		return fmt.Errorf("%s: All() yields %d pairs for %d distinct codes: entries overlap", stage, count, len(keys))
+	}
+	return nil
+}
+
+// reverseTexts lists texts for the CodeForText check: the values of the
+// malformed ranges first, then enumerated values.
+func (m *rawModel) reverseTexts(c *Case, got map[string]string) []string {
+	seen := map[string]bool{}
+	var out []string
+	add := func(s string) {
+		if !seen[s] {
+			seen[s] = true
+			out = append(out, s)
+		}
+	}
+	for _, r := range c.Raw {
+		if len(r.First) == len(r.Last) && !(cmapmodel.Range{Low: r.First, High: r.Last}).WellFormed() {
+			for i, t := range r.Texts {
+				if i < 2 {
+					add(t.String())
+				}
+			}
+		}
+	}
+	for i, k := range sortedKeys(got) {
+		if i%7 == 0 {
+			add(got[k])
+		}
+	}
+	return out
+}
+
 // rawProbes returns valid codes which no entry covers.
 func rawProbes(c *Case, m *rawModel) [][]byte {
 	space := c.Layers[0].Space
 	seen := map[string]bool{}
 	var out [][]byte
 	add := func(code []byte) {
-		if len(code) == 0 || seen[string(code)] || m.codes[string(code)] || !space.IsCode(code) {
+		if len(code) == 0 || seen[string(code)] || m.codes[string(code)] || m.free[string(code)] || !space.IsCode(code) {
 			return
 		}
 		seen[string(code)] = true
@@ -151,6 +252,9 @@ func rawProbes(c *Case, m *rawModel) [][]byte {
 		add(p)
 	}
 	for _, r := range c.Raw {
+		if len(r.First) != len(r.Last) {
+			continue
+		}
 		for i := range r.First {
 			if r.First[i] > 0 {
 				x := append([]byte(nil), r.First...)
@@ -179,6 +283,7 @@ func checkRawCID(c *Case) error {
 	if err != nil {
 		return err
 	}
+	c.obs.nonRect, c.obs.reversed = m.nonRect, m.reversed
 	l := c.Layers[0]
 	f := &cmap.File{Name: l.Name, WMode: 0, CodeSpaceRange: toLib(l.Space)}
 	if l.ROS != nil {
@@ -189,7 +294,7 @@ func checkRawCID(c *Case) error {
 	}
 	for _, r := range c.Raw {
 		f.CIDRanges = append(f.CIDRanges, cmap.Range{First: append([]byte(nil), r.First...), Last: append([]byte(nil), r.Last...), Value: cmap.CID(r.CID)})
-		if !lastByteOnly(r.First, r.Last) {
+		if (cmapmodel.Range{Low: r.First, High: r.Last}).WellFormed() && !lastByteOnly(r.First, r.Last) {
 			c.obs.multiByteRawRange = true
 		}
 	}
@@ -212,16 +317,23 @@ func checkRawCID(c *Case) error {
 				return nil, fmt.Errorf("%s: All() yields <%x> -> %d but LookupCID gives %d", stage, buf, v, lv)
 			}
 		}
-		if count != len(got) || count != m.expected {
-			return nil, fmt.Errorf("%s: All() yields %d pairs for %d distinct codes, the entries cover %d codes", stage, count, len(got), m.expected)
+		if err := m.checkCounts(stage, count, sortedKeys(got)); err != nil {
+			return nil, err
 		}
 		for _, k := range sortedKeys(got) {
-			if !m.codes[k] {
-				return nil, fmt.Errorf("%s: All() yields <%x>, which no entry covers", stage, k)
-			}
 			if want, ok := m.absCID[k]; ok && want != got[k] {
 				return nil, fmt.Errorf("%s: <%x> -> %d, want %d", stage, k, got[k], want)
 			}
+		}
+		// a code which looks up as mapped is enumerated (no notdef entries
+		// here, so a non-zero CID means "mapped")
+		for _, k := range sortedKeys(m.free) {
+			if lv := g.LookupCID([]byte(k)); lv != 0 {
+				if _, ok := got[k]; !ok {
+					return nil, fmt.Errorf("%s: LookupCID(<%x>) = %d, but All() does not yield the code", stage, k, lv)
+				}
+			}
+			c.obs.lookups++
 		}
 		for _, code := range rawProbes(c, m) {
 			if v := g.LookupCID(code); v != 0 {
@@ -245,6 +357,10 @@ func checkRawCID(c *Case) error {
 	c.obs.fileBytes = size
 	g, err := pdf.Decode(pdf.NewCursor(r), ref, cmap.Extract)
 	if err != nil {
+		if m.reversed {
+			c.obs.extractRejected = true
+			return nil
+		}
 		return fmt.Errorf("Extract failed: %v", err)
 	}
 	if same, w := cmapmodel.SameCodes(fromLib(g.CodeSpaceRange), l.Space); !same {
@@ -255,7 +371,7 @@ func checkRawCID(c *Case) error {
 		return err
 	}
 	for _, k := range sortedKeys(before) {
-		if after[k] != before[k] {
+		if !m.free[k] && after[k] != before[k] {
 			return fmt.Errorf("after Embed/Extract: <%x> -> %d, before embedding %d", k, after[k], before[k])
 		}
 	}
@@ -270,6 +386,7 @@ func checkRawTU(c *Case) error {
 	if err != nil {
 		return err
 	}
+	c.obs.nonRect, c.obs.reversed = m.nonRect, m.reversed
 	l := c.Layers[0]
 	tu := &cmap.ToUnicodeFile{CodeSpaceRange: toLib(l.Space)}
 	for _, e := range l.Entries {
@@ -281,7 +398,7 @@ func checkRawTU(c *Case) error {
 			vals[i] = t.String()
 		}
 		tu.Ranges = append(tu.Ranges, cmap.ToUnicodeRange{First: append([]byte(nil), r.First...), Last: append([]byte(nil), r.Last...), Values: vals})
-		if !lastByteOnly(r.First, r.Last) {
+		if (cmapmodel.Range{Low: r.First, High: r.Last}).WellFormed() && !lastByteOnly(r.First, r.Last) {
 			c.obs.multiByteRawRange = true
 		}
 		if len(vals) == 1 {
@@ -308,15 +425,48 @@ func checkRawTU(c *Case) error {
 				return nil, fmt.Errorf("%s: All() yields <%x> -> %+q but Lookup gives (%+q, %v)", stage, buf, v, lv, ok)
 			}
 		}
-		if count != len(got) || count != m.expected {
-			return nil, fmt.Errorf("%s: All() yields %d pairs for %d distinct codes, the entries cover %d codes", stage, count, len(got), m.expected)
+		if err := m.checkCounts(stage, count, sortedKeys(got)); err != nil {
+			return nil, err
 		}
 		for _, k := range sortedKeys(got) {
-			if !m.codes[k] {
-				return nil, fmt.Errorf("%s: All() yields <%x>, which no entry covers", stage, k)
-			}
 			if want, ok := m.absText[k]; ok && want != got[k] {
 				return nil, fmt.Errorf("%s: <%x> -> %+q, want %+q", stage, k, got[k], want)
+			}
+		}
+		// a code which looks up as mapped is enumerated
+		for _, k := range sortedKeys(m.free) {
+			if lv, ok := g.Lookup([]byte(k)); ok {
+				if _, ok := got[k]; !ok {
+					return nil, fmt.Errorf("%s: Lookup(<%x>) = (%+q, true), but All() does not yield the code", stage, k, lv)
+				}
+			}
+			c.obs.lookups++
+		}
+		// GetMapping is the collected enumeration
+		gm, err := g.GetMapping()
+		if err != nil {
+			return nil, fmt.Errorf("%s: GetMapping failed: %v", stage, err)
+		}
+		if len(gm) != len(got) {
+			return nil, fmt.Errorf("%s: GetMapping returns %d codes, All() yields %d", stage, len(gm), len(got))
+		}
+		for _, code := range sortedCodes(gm) {
+			buf = codec.AppendCode(buf[:0], code)
+			if v, ok := got[string(buf)]; !ok || v != gm[code] {
+				return nil, fmt.Errorf("%s: GetMapping has <%x> -> %+q, All() yields (%+q, %v)", stage, buf, gm[code], v, ok)
+			}
+		}
+		// CodeForText enumerates the entries, too: a code it reports must
+		// look up to the text (documented: "a character code whose text is
+		// exactly text")
+		for i, text := range m.reverseTexts(c, got) {
+			if i >= 12 {
+				break
+			}
+			if code, ok := g.CodeForText(text); ok {
+				if lv, lok := g.Lookup(code); !lok || lv != text {
+					return nil, fmt.Errorf("%s: CodeForText(%+q) = <%x>, but Lookup(<%x>) = (%+q, %v)", stage, text, code, code, lv, lok)
+				}
 			}
 		}
 		for _, code := range rawProbes(c, m) {
@@ -341,6 +491,10 @@ func checkRawTU(c *Case) error {
 	c.obs.fileBytes = size
 	g, err := pdf.Decode(pdf.NewCursor(r), ref, cmap.ExtractToUnicode)
 	if err != nil {
+		if m.reversed {
+			c.obs.extractRejected = true
+			return nil
+		}
 		return fmt.Errorf("ExtractToUnicode failed: %v", err)
 	}
 	if g == nil {
@@ -354,7 +508,7 @@ func checkRawTU(c *Case) error {
 		return err
 	}
 	for _, k := range sortedKeys(before) {
-		if after[k] != before[k] {
+		if !m.free[k] && after[k] != before[k] {
 			return fmt.Errorf("after Embed/ExtractToUnicode: <%x> -> %+q, before embedding %+q", k, after[k], before[k])
 		}
 	}
